@@ -26,4 +26,23 @@ PROPS = {
         ],
         "anchors": ["indexing.bind_all"],
     },
+    "C16": {
+        "level": "proof",
+        "stages": ["con"],
+        "rule": "table domain with a recording predicate: 9 predicates (arities 0..4) x all argument lists of length 0..3 (4 in thorough) over 3 (4) keys x all partial bindings; built-in CharacterPredicate over String (ASCII and multi-byte hosts) and MatrixString with position maps. Record = try_new / try_binary_from_triple result, is_satisfied result incl. the unbound key, number of predicate invocations and the argument vectors seen. Non-trivial = try_new succeeded (is_satisfied exercised); distinct by input text.",
+        "trusted_base": TB_EXTERNAL,
+        "assumptions": [
+            "the recording predicate's log is the observable for 'without invoking the predicate'",
+            "PGPredicate is exercised in the port-graph stages (pg.*), not here",
+        ],
+        "anchors": ["constraint.try_new", "constraint.is_satisfied"],
+    },
+    "C14": {
+        "level": "proof",
+        "stages": ["maps"],
+        "rule": "operation histories bind/retain_keys with get of every probe key after every step: exhaustive sequences of length <=4 (5 thorough) over an alphabet of 10 ops for FxHashMap, BTreeMap and StringPositionMap, length <=3 (4) over 12 ops for MatrixPositionMap; random histories (<=30 ops, 8 keys; matrix keys with negative offsets incl. the get-underflow panic); retain_keys on prerequisite-closed subsets of 12 string keys / a 4x4 matrix box in the real hash order (S4); non-closed sets as malformed stream. Non-trivial = history of >=2 ops; distinct by input text.",
+        "trusted_base": TB_EXTERNAL + ["hashbrown iteration order for retain_keys on position maps is observed (logged order is fed to the model), not proved (DESIGN S4/c8)"],
+        "assumptions": ["a panicking retain_keys ends the history (the map may be half-updated)"],
+        "anchors": ["indexing.retain_keys", "string.StringPositionMap", "matrix.MatrixPositionMap"],
+    },
 }
